@@ -195,6 +195,7 @@ func init() {
 		v := ex.tt.Var(name, F64Sort)
 		ex.pathVars = append(ex.pathVars, v)
 		ex.draws = append(ex.draws, Draw{Name: name, Kind: "f64", vars: []*Term{v}})
+		ex.pin(v)
 		return v
 	}
 	harnessAPI["verifAssume"] = func(ex *Exec, fn *ssa.Function, a []Value) Value {
